@@ -33,20 +33,20 @@ _sched("C07", "acknowledgements respect acceptance order",
        "every interleaving (within the deviation bound) of two ingest callers, a Flush caller, the engine workers and a task that releases a gated store call; at every nil acknowledgement and every nil Flush return the batches accepted earlier (by the global observation log) must already be answered and, when answered nil, committed",
        "2 non-empty batches (or one empty), flush triggers by row limit / explicit Flush / shutdown, gate at CreateFile, Close or Update; ordering of the acknowledgement of an empty batch is not asserted (documented as immediate)")
 _sched("C08", "Stop honours its contract",
-       "every interleaving (within the deviation bound) of Stop with 2-3 producers (one making two calls), wedged or ctx-honouring stores, buffered and abandoned unbuffered done channels, and Stop contexts {Background, deadline as a free timer event, already expired, a custom Context implementation}; oracles: monotone ErrEngineStopped, completeness when Stop returns nil, return within the quiescent closure of the deadline event, no CreateFile/Update started after Stop returned its deadline error, every buffered waiter holds exactly one answer",
+       "every interleaving (within the deviation bound) of Stop with 2-3 producers (one making two calls), wedged or ctx-honouring stores, buffered and abandoned unbuffered done channels (valid, empty and rejected batches), an optional concurrent Flush caller (Flush nil implies that no batch accepted before it holds an error), and Stop contexts {Background, deadline as a free timer event, already expired, a custom Context implementation}; oracles: monotone ErrEngineStopped, completeness when Stop returns nil, return within the quiescent closure of the deadline event, no CreateFile/Update started after Stop returned its deadline error, every buffered waiter holds exactly one answer",
        "virtual time: 'roughly by the deadline' is decided as 'without any further timer'; the horizon equals the deadline")
 
 _sched("C09", "bounded backpressure",
-       "store stalled for ever at each call kind, 2-3 producers offering more single-row batches than the configuration bound; after every acceptance the number of accepted-but-unanswered batches is compared with IngestBufferSize + 4 flushes' worth; at quiescence not everything may have been accepted and cancelled callers must return",
+       "store stalled for ever at each call kind, 2-3 producers offering more single-row batches than the configuration bound (also one partition per batch, empty batches behind a buffered row, a Flush caller arriving at the saturated pipeline); after every acceptance the number of accepted-but-unanswered batches is compared with IngestBufferSize + 4 flushes' worth; at quiescence not everything may have been accepted and cancelled callers must return",
        "bound = IngestBufferSize + 4 x (batches one flush request can carry); a bound that is a function of the configuration is what the property asks for, not the tightest one")
 _sched("C10", "buffered rows flush without Flush",
-       "grid of limit settings x batch shapes x MaxBufferedTime x inter-batch gaps under virtual time: when the reference counters reach a limit every accepted batch must be answered without any timer; otherwise by accept time + MaxBufferedTime + one ticker period, with neither Flush nor Stop called",
+       "grid of limit settings x batch shapes x MaxBufferedTime x inter-batch gaps (byte limits also x none/snappy/zstd row-data compression) under virtual time: when the reference counters reach a limit every accepted batch must be answered without any timer; otherwise by accept time + MaxBufferedTime + one ticker period, with neither Flush nor Stop called",
        "virtual time advances only at quiescence in this family (scheduling latency is not modelled); the small sequential driver makes the schedule space tiny, the enumeration is over configurations")
 _sched("C14", "queries concurrent with flushes and merges",
        "ingest+flush, Merge and a draining Query as concurrent tasks over the shipped MemoryMetaStore (harness DataStore, POSIX-like and object-store-like) and over FileSystemDataStore as both stores with every filesystem call a scheduling point; a query that ends with Err()==nil must return every row acknowledged before it started exactly once and nothing foreign",
        "delay-bounded (every departure from the canonical task order costs 1): bound 2 quick / 3 thorough; filesystem state is one external object in the state key")
 _sched("C20", "the Results cursor reaches a correct terminal state",
-       "consumer (Next), closer (Close once or twice) and canceller as concurrent tasks around a query over 2 files x 2 blocks (one block with more than one delivery batch), with at most one injected OpenFile/Read/iterator failure, on never-started, started and stopped engines; terminal-state rules are evaluated relative to the first terminal-deciding call in the global observation log",
+       "consumer (Next), closer (Close once or twice) and canceller as concurrent tasks around a query over 2 files x 2 blocks (one block with more than one delivery batch), with at most one injected OpenFile/Read/iterator failure (the iterator failure also as a deadline error of the store's own making), on never-started, started and stopped engines (incl. draining a stopped engine); terminal-state rules are evaluated relative to the first terminal-deciding call in the global observation log",
        "quick: delay bound 2; thorough: preemption bound 1 (delay bound 3 for the large fixture)")
 _sched("C21", "queries release every resource",
        "same scenarios as C20; at the instant the terminal Next or Close returns every handle must be closed exactly once, never shared or used after close, the MetaStore iterator returned and no engine goroutine of the query alive; a follow-up query whose first MaxQueryConcurrency reads wait for each other must complete",
@@ -116,7 +116,7 @@ _seq("C25", "expression trees mean what they say",
      "builder forms the documentation does not define (conditions chained before Match, repeated Match) and AND/OR nodes with a nil-Condition child in regex trees are not asserted",
      "bounded-exhaustive enumeration of expression trees against a nested boolean reference")
 _seq("C26", "filters meet the configured rate",
-     "grid of entry counts x rates x producers; every stored filter must equal, bit for bit, the textbook-sized filter over the reference's entries, and its measured rate over 200000 fixed absent entries must stay within 3x the configured rate (+5 sigma)",
+     "grid of entry counts x rates x producers (flush, rebuilt and copied merge blocks, single- and three-partition files); every stored filter must equal, bit for bit, the textbook-sized filter over the reference's entries, and its measured rate over 200000 fixed absent entries must stay within 3x the configured rate (+5 sigma)",
      "the statistical clause is decided by an exact sizing/bit equality plus a fixed-universe measurement, not by a statistical test over random data; filters below 50 entries are a catalogued finding",
      "bounded grid enumeration with an exact construction oracle", budget={"quick": 300, "thorough": 1500})
 
@@ -131,15 +131,15 @@ _seq("C13", "merge is all-or-nothing",
      "exhaustive fault-position enumeration over a recorded history, plus controlled-scheduler exploration of overlapping Merge calls", level="fault_enumeration",
      extra_parts=[{"engine": "sched", "family": "C13"}], budget={"quick": 400, "thorough": 1500})
 _seq("C15", "filesystem store is crash-consistent",
-     "every prefix of the os-level operation log of 4 histories and of every single-fault abort path yields process-crash and power-loss directory states (torn writes, unsynced data absent/present, every prefix or subset of unsynced directory operations); each distinct state is materialised and recovered by a fresh engine",
+     "every prefix of the os-level operation log of 4 histories (scripted file names forming prefix chains) and of every single-fault abort path yields process-crash and power-loss directory states (torn writes, unsynced data absent/present, every prefix or subset of unsynced directory operations); each distinct state is materialised and recovered by a fresh engine",
      "verdict is relative to the stated durability model; the operation log is produced by the implementation itself through the os shim placed by the build overlay",
      "exhaustive crash-point and power-loss state enumeration from the implementation's own operation log", level="fault_enumeration")
 _seq("C16", "FileSystemDataStore behaves like its specification",
-     "breadth-first search over call sequences of 2-3 writer slots with a scripted name draw (forced collisions), Close failures and slot reuse; after every step the real directory, the scan and OpenFile are compared byte for byte with a map model",
+     "breadth-first search over call sequences of 2-3 writer slots with a scripted name draw (forced collisions), Close failures, slot reuse and one reader held open across later operations; after every step the real directory, the scan and OpenFile are compared byte for byte with a map model",
      "the name-draw hook is added through the build overlay (verif tag); tombstoning a pointer whose name was re-drawn after its writer aborted is outside the contract and not explored",
      "explicit-state breadth-first search over call sequences of the real store with a reference model", level="model_checking")
 _seq("C19", "corruption fails cleanly",
-     "exhaustive single-byte, window, truncation, extension and splice mutations plus CRC-consistent framing-field grids of engine-written files (with and without row data hashes), each read through every helper and queried in two flows, in child processes with an address-space limit",
+     "exhaustive single-byte, window, truncation, extension and splice mutations plus CRC-consistent framing-field grids of engine-written files (with and without row data hashes), each read through every helper (with the metadata the file declares and with the metadata a MetaStore holds) and queried in three flows (self-described, MetaStore holding the original metadata, MetaStore holding the re-written metadata over the intact file), in child processes with an address-space limit",
      "content oracles are off for files without row data hashes (corruption is then undetectable by design) except the framing oracle: row data that is not a sequence of whole length-prefixed rows must be reported by the scanner and by the match-all query; UncompressedSize left valid",
      "exhaustive mutation enumeration with process isolation, plus controlled-scheduler exploration of read failures on multi-read filter passes (pool shim: nothing is released twice; follow-up query exact)", level="fault_enumeration",
      extra_parts=[{"engine": "sched", "family": "C19"}], budget={"quick": 400, "thorough": 1500})
